@@ -1,5 +1,5 @@
 (* SymbolsProofs.v — every model symbol the generated code uses is declared earlier in the same output (C19). *)
-From Coq Require Import String Ascii List Bool ZArith QArith Arith Lia Permutation.
+From Coq Require Import String Ascii List Bool ZArith QArith Arith Lia Permutation Sorted.
 From DL Require Import Lib.Val Lib.PyDict Lib.Product Dec.Num Dec.Tables Amp.Syntax Amp.Perm Amp.Read Amp.GooFit Amp.Session
   Amp.Convert Amp.ConvertProofs Amp.Symbols Gen.GenAmp.
 Import ListNotations.
@@ -161,6 +161,121 @@ Proof.
   destruct H as [<-|H]; [left; reflexivity | right; eapply IH; exact H].
 Qed.
 
+(* ------------------------------------------------------------------ the arrays of make_pars *)
+Lemma ins_key_perm x l : Permutation (ins_key x l) (x :: l).
+Proof.
+  induction l as [|y r IH]; cbn [ins_key]; [apply Permutation_refl|].
+  destruct (Z.ltb (fst x) (fst y)); [apply Permutation_refl|].
+  eapply perm_trans; [apply perm_skip; exact IH | apply perm_swap].
+Qed.
+
+Lemma sort_keyed_perm l : Permutation (sort_keyed l) l.
+Proof.
+  induction l as [|x r IH]; cbn [sort_keyed fold_right]; [apply perm_nil|].
+  eapply perm_trans; [apply ins_key_perm | apply perm_skip; exact IH].
+Qed.
+
+Definition kle (a b : Z * string) : Prop := (fst a <= fst b)%Z.
+
+Lemma ins_key_sorted x l : StronglySorted kle l -> StronglySorted kle (ins_key x l).
+Proof.
+  induction 1 as [|y r Hs IH Hy]; cbn [ins_key]; [constructor; [constructor | constructor]|].
+  destruct (Z.ltb_spec (fst x) (fst y)) as [Hlt|Hge].
+  - constructor; [constructor; assumption|]. constructor; [unfold kle; lia|].
+    eapply Forall_impl; [|exact Hy]. intros z Hz. unfold kle in *. lia.
+  - constructor; [exact IH|]. eapply Permutation_Forall; [apply Permutation_sym, ins_key_perm|].
+    constructor; [unfold kle; lia | exact Hy].
+Qed.
+
+Lemma sort_keyed_sorted l : StronglySorted kle (sort_keyed l).
+Proof. induction l as [|x r IH]; cbn [sort_keyed fold_right]; [constructor | apply ins_key_sorted, IH]. Qed.
+
+(* with distinct keys the order is strict: the result does not depend on the sorting algorithm *)
+Lemma sorted_strict l : StronglySorted kle l -> NoDup (map fst l) -> StronglySorted (fun a b : Z * string => (fst a < fst b)%Z) l.
+Proof.
+  induction 1 as [|y r Hs IH Hy]; intros Hnd; [constructor|]. cbn [map] in Hnd. inversion Hnd as [|? ? Hnin Hnd']; subst.
+  constructor; [apply IH, Hnd'|]. rewrite Forall_forall in *. intros z Hz. specialize (Hy z Hz). unfold kle in Hy.
+  assert (fst y <> fst z) by (intros E; apply Hnin; rewrite E; apply in_map, Hz). lia.
+Qed.
+
+Lemma mapM_pairs {A B} (f : A -> option B) l ys : mapM f l = Some ys -> Forall2 (fun x y => f x = Some y) l ys.
+Proof.
+  revert ys. induction l as [|x r IH]; intros ys H; cbn [mapM] in H.
+  - injection H as <-. constructor.
+  - destruct (f x) as [y|] eqn:Ef; [|discriminate]. destruct (mapM f r) as [ys'|]; [|discriminate]. injection H as <-.
+    constructor; [exact Ef | apply IH; reflexivity].
+Qed.
+
+Lemma keyed_names key ps b kn : keyed key ps b = Some kn ->
+  map snd kn = filter (contains b) ps /\ Forall (fun x => key b (snd x) = Some (fst x)) kn.
+Proof.
+  unfold keyed. intros H. apply mapM_pairs in H. induction H as [|n x l l' Hx F [IH1 IH2]]; [split; [reflexivity | constructor]|].
+  destruct (key b n) as [k|] eqn:Ek; [|discriminate]. injection Hx as <-. cbn [map snd fst]. split; [rewrite IH1; reflexivity|].
+  constructor; [exact Ek | exact IH2].
+Qed.
+
+(* the members of an array: exactly the parameters whose name contains the family prefix, each once, under their programmatic
+   names, in the order of their integers *)
+Theorem pararray_spec key ps b els : pararray key ps b = Some els ->
+  exists kn, map snd kn = filter (contains b) ps /\ Forall (fun x => key b (snd x) = Some (fst x)) kn /\
+             els = map (fun x => programmatic (snd x)) (sort_keyed kn) /\
+             Permutation (sort_keyed kn) kn /\ StronglySorted kle (sort_keyed kn) /\
+             (NoDup (map fst kn) -> StronglySorted (fun a b : Z * string => (fst a < fst b)%Z) (sort_keyed kn)).
+Proof.
+  unfold pararray. intros H. destruct (keyed key ps b) as [kn|] eqn:Ek; [|discriminate]. injection H as <-.
+  destruct (keyed_names _ _ _ _ Ek) as [E1 E2]. exists kn. split; [exact E1|]. split; [exact E2|]. split; [reflexivity|].
+  split; [apply sort_keyed_perm|]. split; [apply sort_keyed_sorted|].
+  intros Hnd. apply sorted_strict; [apply sort_keyed_sorted|].
+  eapply Permutation_NoDup; [apply Permutation_map, Permutation_sym, sort_keyed_perm | exact Hnd].
+Qed.
+
+Lemma pararray_incl key ps b els : pararray key ps b = Some els -> incl els (map programmatic ps).
+Proof.
+  intros H. destruct (pararray_spec _ _ _ _ H) as (kn & E1 & _ & -> & P & _). intros x Hx.
+  apply in_map_iff in Hx. destruct Hx as (y & <- & Hy). apply in_map.
+  assert (Hin : In (snd y) (map snd kn)) by (apply in_map; eapply Permutation_in; [exact P | exact Hy]).
+  rewrite E1 in Hin. apply filter_In in Hin. apply Hin.
+Qed.
+
+Lemma arrays_spec ps cs arrs : arrays ps cs = Some arrs ->
+  (forall a, In a arrs -> incl (snd a) (map programmatic ps)) /\
+  (forall s, In s (spline_names cs) -> In (programmatic s ++ "_SplineArr")%string (map fst arrs)) /\
+  (filter (contains "f_scatt") ps <> [] -> In "f_scatt"%string (map fst arrs)) /\
+  (filter (contains "IS_p") ps <> [] -> In "IS_poles"%string (map fst arrs)).
+Proof.
+  unfold arrays. intros H.
+  destruct (mapM _ (spline_names cs)) as [sp|] eqn:Esp; [|discriminate].
+  apply mapM_pairs in Esp.
+  set (F := match filter (contains "f_scatt") ps with [] => Some [] | _ => option_map (fun els => [("f_scatt"%string, els)]) (pararray key_plain ps "f_scatt") end) in *.
+  set (G := match filter (contains "IS_p") ps with [] => Some [] | _ => option_map (fun els => [("IS_poles"%string, els)]) (pararray key_is ps "IS_p") end) in *.
+  destruct F as [fsc|] eqn:EF; [|discriminate]. destruct G as [isp|] eqn:EG; [|discriminate]. injection H as <-.
+  assert (Hsp : forall a, In a sp -> incl (snd a) (map programmatic ps)).
+  { intros a Ha. destruct (Forall2_in_r _ _ _ _ Esp Ha) as (s0 & _ & Hs0).
+    destruct (pararray key_plain ps (s0 ++ "::Spline::Gamma::")) as [els|] eqn:Ep; [|discriminate]. injection Hs0 as <-.
+    cbn [snd]. eapply pararray_incl; exact Ep. }
+  assert (Hf : forall a, In a fsc -> incl (snd a) (map programmatic ps)).
+  { subst F. intros a Ha. destruct (filter (contains "f_scatt") ps); [injection EF as <-; destruct Ha|].
+    destruct (pararray key_plain ps "f_scatt") as [els|] eqn:Ep; [|discriminate]. injection EF as <-. destruct Ha as [<-|[]].
+    cbn [snd]. eapply pararray_incl; exact Ep. }
+  assert (Hi : forall a, In a isp -> incl (snd a) (map programmatic ps)).
+  { subst G. intros a Ha. destruct (filter (contains "IS_p") ps); [injection EG as <-; destruct Ha|].
+    destruct (pararray key_is ps "IS_p") as [els|] eqn:Ep; [|discriminate]. injection EG as <-. destruct Ha as [<-|[]].
+    cbn [snd]. eapply pararray_incl; exact Ep. }
+  split; [|split; [|split]].
+  - intros a Ha. apply in_app_or in Ha. destruct Ha as [Ha|Ha]; [apply Hsp, Ha|].
+    apply in_app_or in Ha. destruct Ha as [Ha|Ha]; [apply Hf, Ha | apply Hi, Ha].
+  - intros s0 Hs0. rewrite map_app. apply in_or_app. left.
+    destruct (Forall2_in_l _ _ _ _ Esp Hs0) as (a & Ha & Hs1).
+    destruct (pararray key_plain ps (s0 ++ "::Spline::Gamma::")) as [els|]; [|discriminate]. injection Hs1 as <-.
+    apply in_map_iff. eexists. split; [|exact Ha]. reflexivity.
+  - intros Hne. rewrite !map_app. apply in_or_app. right. apply in_or_app. left. subst F.
+    destruct (filter (contains "f_scatt") ps); [contradiction|].
+    destruct (pararray key_plain ps "f_scatt"); [|discriminate]. injection EF as <-. left. reflexivity.
+  - intros Hne. rewrite !map_app. apply in_or_app. right. apply in_or_app. right. subst G.
+    destruct (filter (contains "IS_p") ps); [contradiction|].
+    destruct (pararray key_is ps "IS_p"); [|discriminate]. injection EG as <-. left. reflexivity.
+Qed.
+
 Section Closed.
 Variable pid_of : string -> option Z.
 Variable info : Z -> option pinfo.
@@ -241,19 +356,13 @@ Theorem symbols_scoped config f so :
 Proof.
   unfold symbols. intros H Hprem. destruct (convert pid_of info sfk fuel config f) as [c|] eqn:Ec; [|discriminate].
   specialize (Hprem c eq_refl). destruct (all_some (c_amps c)) as [es|] eqn:Ees; [|discriminate].
+  destruct (arrays (map pd_name (c_pars c)) (const_names_of f)) as [arrs|] eqn:Ea; [|discriminate].
   injection H as <-. unfold scoped_cond. cbn [so_consts so_resvars so_masses so_pars so_arrays so_amps].
   pose proof (convert_pnames _ _ _ Ec) as Epn.
+  destruct (arrays_spec _ _ _ Ea) as (Hincl & Hspl & Hfs & His).
   split; [exact (convert_masses _ _ _ Ec)|]. split.
   - (* array elements are parameter variables *)
-    intros a Ha. rewrite Epn. unfold arrays in Ha.
-    assert (Hpa : forall b, incl (pararray (map pd_name (c_pars c)) b) (map programmatic (map pd_name (c_pars c)))).
-    { intros b x Hx. unfold pararray in Hx. apply in_map_iff in Hx. destruct Hx as (n & <- & Hn). apply in_map.
-      apply filter_In in Hn. apply Hn. }
-    apply in_app_or in Ha. destruct Ha as [Ha|Ha].
-    + apply in_map_iff in Ha. destruct Ha as (s & <- & _). apply Hpa.
-    + apply in_app_or in Ha. destruct Ha as [Ha|Ha].
-      * destruct (filter (contains "f_scatt") (map pd_name (c_pars c))); [destruct Ha|]. destruct Ha as [<-|[]]. apply Hpa.
-      * destruct (filter (contains "IS_p") (map pd_name (c_pars c))); [destruct Ha|]. destruct Ha as [<-|[]]. apply Hpa.
+    intros a Ha. rewrite Epn. apply Hincl, Ha.
   - (* what a lineshape uses *)
     intros amp ls n Hamp Hls Hn. apply in_map_iff in Hamp. destruct Hamp as (e & <- & He).
     apply in_map_iff in Hls. destruct Hls as (l & <- & Hl).
@@ -268,18 +377,13 @@ Proof.
     unfold ls_uses in Hn. destruct (ls_k l) eqn:Ek.
     + left. destruct Hn as [<-|[<-|[]]]; apply Hmw; auto.
     + destruct Hn as [<-|[<-|[<-|[]]]]; [left; apply Hmw; auto | left; apply Hmw; auto|].
-      right. right. unfold arrays. rewrite map_app. apply in_or_app. left. rewrite map_map. cbn [fst].
-      apply in_map_iff. exists (ls_name l). split; [reflexivity | exact Hkind].
+      right. right. apply Hspl, Hkind.
     + destruct Hkind as (Hkm & (n1 & Hn1 & Hc1) & (n2 & Hn2 & Hc2)).
       apply in_app_or in Hn. destruct Hn as [Hn|Hn].
       * right. left. rewrite Epn. apply in_map_iff in Hn. destruct Hn as (k & <- & Hk). apply in_map, Hkm, Hk.
       * destruct Hn as [<-|[<-|[<-|[<-|[]]]]]; [| |left; apply Hmw; auto|left; apply Hmw; auto].
-        -- right. right. unfold arrays. rewrite !map_app. apply in_or_app. right. apply in_or_app. left.
-           pose proof (filter_nonempty _ _ _ Hn1 Hc1) as Hne.
-           destruct (filter (contains "f_scatt") (map pd_name (c_pars c))); [contradiction|]. left. reflexivity.
-        -- right. right. unfold arrays. rewrite !map_app. apply in_or_app. right. apply in_or_app. right.
-           pose proof (filter_nonempty _ _ _ Hn2 Hc2) as Hne.
-           destruct (filter (contains "IS_p") (map pd_name (c_pars c))); [contradiction|]. left. reflexivity.
+        -- right. right. apply Hfs. exact (filter_nonempty _ _ n1 Hn1 Hc1).
+        -- right. right. apply His. exact (filter_nonempty _ _ n2 Hn2 Hc2).
     + left. destruct Hn as [<-|[<-|[]]]; apply Hmw; auto.
 Qed.
 
